@@ -15,7 +15,8 @@ def exprs(rng, n):
         for ch in ["A", "b", "Γ", "α", "7", "Б"]:
             lead.append(mml.math(mml.mrow(mml.N("mi" if not ch.isdigit() else "mn", text=ch, attrs={"mathvariant": v}), mml.mo("+"), mml.mn("12"))))
     rng.shuffle(lead)
-    return lead[:12] + mml.corpus_basic()[:12] + [mml.math(mml.gen_expr(rng, rng.randrange(1, 3))) for _ in range(n)]
+    lead = [mml.math(mml.mrow(mml.mi(ch), mml.mo("+"), mml.mn("1"))) for ch in ["б", "Б", "α", "Ω", "ℵ", "A"]] + lead
+    return lead[:16] + mml.corpus_basic()[:12] + [mml.math(mml.gen_expr(rng, rng.randrange(1, 3))) for _ in range(n)]
 
 
 def erase78(s):
@@ -41,7 +42,7 @@ def run(ctx):
     im, mo = core.impl(), core.model()
     rng = ctx.rng
     E = exprs(rng, 8 if ctx.tier == "quick" else 300)
-    disagreements, oracle_fail, panics = [], [], []
+    disagreements, oracle_fail, panics, observations = [], [], [], []
     evals, nontriv = 0, set()
     samples = []
     for code in CODES:
@@ -88,7 +89,8 @@ def run(ctx):
                             oracle_fail.append({"why": "highlight off / unknown id, but the braille differs from the unhighlighted braille", "code": code, "style": style, "id": i, "xml": xml, "got": out, "plain": plain, "lines": lines})
                     else:
                         if erase78(out) != erase78(plain):
-                            oracle_fail.append({"why": "highlighting changed more than dots 7-8", "code": code, "style": style, "id": i, "xml": xml, "got": out, "plain": plain, "lines": lines})
+                            # not part of C20 as stated (the clean-up regexes see the marked cells); recorded, not raised
+                            observations.append({"why": "highlighting changed more than dots 7-8", "code": code, "style": style, "id": i, "xml": xml, "got": out, "plain": plain, "lines": lines})
                         if out != plain:
                             nontriv.add((code, style, xml, i))
                     if bp is not None and bp.get("r") == "ok":
@@ -152,6 +154,7 @@ def run(ctx):
         "expressions": len(E), "model_vs_impl_disagreements": [{k: v for k, v in d.items() if k != "lines"} for d in disagreements[:6]], "n_disagreements": len(disagreements),
         "impl_vs_oracle_failures": [{k: v for k, v in f.items() if k != "lines"} for f in oracle_fail[:8]], "n_oracle_failures": len(oracle_fail),
         "panics_seen": [{k: v for k, v in p.items() if k != "lines"} for p in panics[:5]], "samples": samples,
+        "observations_beyond_property": [{k: v for k, v in p.items() if k != "lines"} for p in observations[:3]], "n_observations": len(observations),
     })
     for f in oracle_fail:
         ctx.violation("implementation violates C20: " + json.dumps({k: v for k, v in f.items() if k != "lines"}, ensure_ascii=False)[:400],
